@@ -20,7 +20,7 @@ SPEC = {
         ("_build_node_path(a stopped entry is never chosen)", 'final_choice', r'live'),
         ("match(only non-stopped entries count as solutions; early stop at 0 returns ([],0))", 'match', r'^(loop:(early-stop|continues)|result:empty)')],
     'bounded': [
-        ('error-vs-debug-level', suites.case_C19, 1500, 25000, RULE + '; ' + 'non-trivial = at least one candidate was cut off', '')],
+        ('error-vs-debug-level', suites.case_C19, 1500, 200000, RULE + '; ' + 'non-trivial = at least one candidate was cut off', '')],
 }
 
 
